@@ -58,7 +58,7 @@ class Seg(object):
         if self.bits is None:
             n, val = self.n, self.val
             if _is_expr(val):
-                name = 'sb%d_' % sc.COUNTERS['fresh_vars']
+                name = 'sb%d_' % sc.path_serial()
                 bits = [sc.fresh_int('%s%d' % (name, k), 0, 1) for k in range(n)]
                 sc.add(val == _sum_bits(bits))
                 self.bits = bits
